@@ -120,6 +120,19 @@ def _default_inst(kind: str, variant: int = 0, rng: np.random.Generator | None =
         b = 0.1 * np.arange(12) ** 1.5
         c = 0.1 * np.arange(17) ** 1.5
         return Inst(kind, 9, 2500.0, 9000.0, {"A": a, "B": b, "C": c}, np.linspace(6000.0, 1500.0, 12))
+    if variant == 10:
+        # A is fine and long enough for the (ideal) reservoir to deplete to round-off; B (same length) and C are coarse and go far
+        # beyond that time: when a profile falls below round-off belongs to the grid, not to the reservoir
+        a = np.linspace(0, 10.0, 120) ** 2
+        b = np.linspace(0, 1000.0, 120)
+        c = np.linspace(0, 55.0, 40) ** 2
+        return Inst(kind, 5, 1000.0, 8000.0, {"A": a, "B": b, "C": c}, np.linspace(4000.0, 1200.0, 120))
+    if variant == 11:
+        # consecutive horizons of one piecewise schedule: B starts where A ends, C after B has ended
+        a = np.linspace(0, 3.0, 12) ** 2
+        b = 9.0 + np.linspace(0, 4.0, 12) ** 2
+        c = 30.0 + np.linspace(0, 4.0, 15) ** 2
+        return Inst(kind, 9, 1500.0, 9000.0, {"A": a, "B": b, "C": c}, np.linspace(6000.0, 2000.0, 12))
     rng = rng or np.random.default_rng(variant)
     n1 = int(rng.integers(3, 14))
     n2 = n1 + int(rng.integers(1, 6))
